@@ -65,7 +65,10 @@ DomFull == [
     introspect |-> {"off", "on"},             \* EnableTokenIntrospection
     sticky     |-> {"off", "on", "echo", "echoonly"},  \* EnableSticky / SetStickyEchoHeaders
     comp       |-> {"0", "1"},                \* SetCompressionLevel
-    auth       |-> {"none", "accept", "authfail", "valueerr", "permerr", "unavail", "other"},
+    \* reject kinds; "<kind>_ctx" returns a non-nil *AuthContext together with the error
+    \* ("identified the caller, but ..."): the error alone is the verdict
+    auth       |-> {"none", "accept", "authfail", "valueerr", "permerr", "unavail", "other",
+                    "authfail_ctx", "valueerr_ctx", "permerr_ctx", "unavail_ctx", "other_ctx"},
     hook       |-> {"none", "ok", "failfirst"},        \* Server.SetServeStartHook
     oauth      |-> {"none", "meta", "pkce"},  \* SetOAuthResourceMetadata / SetOAuthPkce
     dhook      |-> {"off", "on"},             \* Server.SetDispatchHook (installs the egress recorder)
@@ -151,7 +154,8 @@ Cases == IF MaxDev >= Cardinality(Dims) THEN Product(Dom) ELSE DevK(Bases, MaxDe
 
 --------------------------------------------------------------------------
 (* Configuration predicates.                                               *)
-Rejects == {"authfail", "valueerr", "permerr", "unavail", "other"}
+Rejects == {"authfail", "valueerr", "permerr", "unavail", "other",
+            "authfail_ctx", "valueerr_ctx", "permerr_ctx", "unavail_ctx", "other_ctx"}
 AuthRejects(c) == c.auth \in Rejects
 \* SetOAuthPkce refuses to enable login without an authenticator
 PkceOn(c)   == c.oauth = "pkce" /\ c.auth # "none"
@@ -312,9 +316,11 @@ GatedHandlers  == {"Unary", "StreamInit", "StreamExchange", "UploadURL", "Intros
 (* (eligible for response compression); auth: "rejected" | "passed" | "na" *)
 R(st, work, fw, arrow, auth) == [st |-> st, work |-> work, fw |-> fw, arrow |-> arrow, auth |-> auth]
 
-AuthStatus(c) == CASE c.auth \in {"authfail", "valueerr", "permerr"} -> 401
-                   [] c.auth = "unavail" -> 503
-                   [] c.auth = "other"   -> 500
+\* the status depends on the error only, never on a context returned next to it
+AuthStatus(c) == CASE c.auth \in {"authfail", "valueerr", "permerr",
+                                  "authfail_ctx", "valueerr_ctx", "permerr_ctx"} -> 401
+                   [] c.auth \in {"unavail", "unavail_ctx"} -> 503
+                   [] c.auth \in {"other", "other_ctx"}     -> 500
 
 \* writeUnauthorized
 UnauthorizedHdrs(c) == {"vgi-auth-reason"}
